@@ -101,7 +101,7 @@ M = [
  ("M43 mpsc queue: old block freed at once (no delayed drop)", "may_queue/src/mpsc.rs",
   "        self.head.index.store(pop_index + 1, Ordering::Relaxed);\n\n        if id == BLOCK_MASK {\n            // we need to delay the drop of the block to let the push's `wait_next_block` return\n            let old_block = unsafe { &mut *(self.old_block.get()) };\n            old_block.replace(unsafe { Box::from_raw(head) });\n\n            let next_block = head.wait_next_block();",
   "        self.head.index.store(pop_index + 1, Ordering::Relaxed);\n\n        if id == BLOCK_MASK {\n            let next_block = head.wait_next_block();\n            drop(unsafe { Box::from_raw(head as *mut BlockNode<T>) });", "C03", 100000),
- ("M44 spmc: steal_into also re-queues the returned task", "may_queue/src/spmc.rs",
+ ("M44 control: a no-op edit of steal_into (must survive)", "may_queue/src/spmc.rs",
   "        let ret = v.pop();\n        for t in v {", "        let ret = v.pop();\n        for t in v.into_iter().skip(0) {", "C04", 100),
  ("M45 spmc: ABA wait loop removed in bulk_pop", "may_queue/src/spmc.rs",
   "                        while end > self.tail.index.load(Ordering::Acquire) {", "                        while false && end > self.tail.index.load(Ordering::Acquire) {", "C04", 200000),
@@ -131,14 +131,14 @@ M = [
   "                    h.with_mut_data(|value| value.data.event_data = std::ptr::null_mut());\n                }\n                h.remove()",
   "                    h.with_mut_data(|_value| ());\n                }\n                h.remove()", "C18", 20000),
  ("M59 io: socket read subscribe without the cancel re-check", "src/io/sys/unix/net/socket_read.rs",
-  "            if cancel.is_canceled() {\n                unsafe { cancel.cancel() };\n            }",
-  "            if false && cancel.is_canceled() {\n                unsafe { cancel.cancel() };\n            }", "C18", 40000),
+  "        if cancel.is_canceled() {\n            io_data.schedule();\n        }",
+  "        if false && cancel.is_canceled() {\n            io_data.schedule();\n        }", "C18", 40000),
  ("M63 io: udp recv_from subscribe without the io_flag re-check", "src/io/sys/unix/net/udp_recv_from.rs", '        if io_data.io_flag.load(Ordering::Acquire) != 0 {', '        if false && io_data.io_flag.load(Ordering::Acquire) != 0 {', "C17", 20000),
  ("M64 io: unix accept subscribe without the io_flag re-check", "src/io/sys/unix/net/unix_listener_accept.rs", '        if io_data.io_flag.load(Ordering::Acquire) != 0 {', '        if false && io_data.io_flag.load(Ordering::Acquire) != 0 {', "C17", 20000),
  ("M65 io: wait_io subscribe without the io_flag re-check", "src/io/sys/unix/wait_io.rs", '        if io_data.io_flag.load(Ordering::Acquire) != 0 {', '        if false && io_data.io_flag.load(Ordering::Acquire) != 0 {', "C17", 40000),
- ("M66 io: io timer armed with the time-out rounded down to whole ms", "src/io/sys/unix/epoll.rs",
+ ("M66 io: io timer armed 300 us short", "src/io/sys/unix/epoll.rs",
   "        let (h, b_new) = self.vec[id].timer_list.add_timer(timeout, io.timer_data());",
-  "        let (h, b_new) = self.vec[id].timer_list.add_timer(Duration::from_millis(timeout.as_millis() as u64), io.timer_data());", "C18", 20000),
+  "        let (h, b_new) = self.vec[id].timer_list.add_timer(timeout.saturating_sub(Duration::from_micros(300)), io.timer_data());", "C18", 20000),
  ("M67 io: fast_schedule does not disarm the io timer", "src/io/sys/unix/mod.rs",
   "    pub fn fast_schedule(&self) {\n        let co = match self.co.take() {\n            Some(co) => co,\n            None => return, // it's already take by selector\n        };\n\n        // tell the timer function not to cancel the io. the entry can't be removed here:\n        // this is not the selector thread that consumes the timer list, and only the\n        // consumer may unlink entries, so it stays there disarmed until it expires\n        #[cfg(feature = \"io_timeout\")]\n        if let Some(h) = self.timer.borrow_mut().take() {",
   "    pub fn fast_schedule(&self) {\n        let co = match self.co.take() {\n            Some(co) => co,\n            None => return, // it's already take by selector\n        };\n\n        #[cfg(feature = \"io_timeout\")]\n        if let Some(h) = None::<TimerHandle> {", "C18", 40000),
